@@ -12,10 +12,12 @@ ID = "C39"
 #   "fixed"  : Model/DecFloatFixed.v mirrors the repaired code (see the repair diff in the report);
 #              Props/C39Fixed.v carries the full theorems.
 VARIANT = "pinned"
+VARIANT = os.environ.get("C39_VARIANT", VARIANT)   # override for trying the other model against a scratch repo
 # ---------------------------------------------------------------------------------------------
 
 if VARIANT == "pinned":
-    COQ_FILES = ["Common/Corr.v", "Model/DecFloatTables.v", "Model/DecFloat.v", "Proofs/DecFloat.v", "Props/C39.v"]
+    COQ_FILES = ["Common/Corr.v", "Model/DecFloatTables.v", "Model/DecFloat.v", "Proofs/DecFloat.v",
+                 "Proofs/DecFloatRefuted.v", "Props/C39.v"]
     PROPS = "Props/C39.v"
     THEOREMS = ["C39_float64_correctly_rounded_refuted", "C39_float64_correctly_rounded_refuted_table_entry",
                 "C39_exact_flag_refuted", "C39_float64_correctly_rounded_partial", "C39_exact_flag_sound_partial",
